@@ -28,6 +28,8 @@ type c04Call struct {
 	id      string
 	verdict ValidationResult
 	at      time.Time
+	topic   string // topic of the message it was called with
+	wrong   bool   // a topic validator called with another topic's message
 }
 
 type c04Rec struct {
@@ -68,7 +70,18 @@ func c04IDOf(data []byte) string {
 	return string(data)
 }
 
-func c04Validator(idx int, rec *c04Rec, honourCtx bool) ValidatorEx {
+// c04Pad is a default validator that accepts everything (it only varies how
+// many default validators there are); its calls are recorded as val 100+j.
+func c04Pad(j int, rec *c04Rec) ValidatorEx {
+	return func(ctx context.Context, p peer.ID, m *Message) ValidationResult {
+		if d := m.GetData(); len(d) >= 9 {
+			rec.add(c04Call{val: 100 + j, id: c04IDOf(d), verdict: ValidationAccept, at: time.Now(), topic: m.GetTopic()})
+		}
+		return ValidationAccept
+	}
+}
+
+func c04Validator(idx int, rec *c04Rec, honourCtx bool, forTopic ...string) ValidatorEx {
 	return func(ctx context.Context, p peer.ID, m *Message) ValidationResult {
 		d := m.GetData()
 		if len(d) < 9 {
@@ -87,7 +100,7 @@ func c04Validator(idx int, rec *c04Rec, honourCtx bool) ValidatorEx {
 				time.Sleep(delay)
 			}
 		}
-		rec.add(c04Call{val: idx, id: c04IDOf(d), verdict: v, at: time.Now()})
+		rec.add(c04Call{val: idx, id: c04IDOf(d), verdict: v, at: time.Now(), topic: m.GetTopic(), wrong: len(forTopic) > 0 && forTopic[0] != m.GetTopic()})
 		return v
 	}
 }
@@ -116,6 +129,17 @@ func TestVerifC04Verdicts(t *testing.T) {
 					places[i].honour = c.Chance(0.6)
 				}
 			}
+			// a second topic with (maybe) its own validator, and 0..4 extra accepting default validators
+			uVal := -1
+			if nVal < 4 && c.Chance(0.6) {
+				uVal = nVal
+			}
+			uInline := c.Chance(0.5)
+			nPad := 0
+			if c.Chance(0.5) {
+				nPad = c.Range(1, 4)
+			}
+			padFirst := c.Chance(0.5)
 			throttleKind := ""
 			if c.Chance(0.25) {
 				throttleKind = []string{"global", "per_validator", "queue"}[c.Intn(3)]
@@ -126,9 +150,14 @@ func TestVerifC04Verdicts(t *testing.T) {
 				TimeInMeshQuantum: time.Second}
 			opts := []Option{WithGossipSubParams(params),
 				WithPeerScore(&PeerScoreParams{AppSpecificScore: func(peer.ID) float64 { return 1000 }, AppSpecificWeight: 1, DecayInterval: time.Hour, DecayToZero: 0.01,
-					Topics: map[string]*TopicScoreParams{"t": topicScore}},
+					Topics: map[string]*TopicScoreParams{"t": topicScore, "u": topicScore}},
 					&PeerScoreThresholds{GossipThreshold: -1e9, PublishThreshold: -2e9, GraylistThreshold: -3e9, AcceptPXThreshold: 1e9, OpportunisticGraftThreshold: 1})}
 			var desc []string
+			if padFirst {
+				for j := 0; j < nPad; j++ {
+					opts = append(opts, WithDefaultValidator(c04Pad(j, rec), WithValidatorInline(true)))
+				}
+			}
 			for i, pl := range places {
 				if pl.topic {
 					continue
@@ -141,6 +170,11 @@ func TestVerifC04Verdicts(t *testing.T) {
 					vo = append(vo, WithValidatorConcurrency(1))
 				}
 				opts = append(opts, WithDefaultValidator(c04Validator(i, rec, pl.honour), vo...))
+			}
+			if !padFirst {
+				for j := 0; j < nPad; j++ {
+					opts = append(opts, WithDefaultValidator(c04Pad(j, rec), WithValidatorInline(true)))
+				}
 			}
 			switch throttleKind {
 			case "global":
@@ -166,7 +200,7 @@ func TestVerifC04Verdicts(t *testing.T) {
 					if throttleKind == "per_validator" && !pl.inline {
 						vo = append(vo, WithValidatorConcurrency(1))
 					}
-					if err := nd.ps.RegisterTopicValidator("t", c04Validator(i, rec, pl.honour), vo...); err != nil {
+					if err := nd.ps.RegisterTopicValidator("t", c04Validator(i, rec, pl.honour, "t"), vo...); err != nil {
 						panic(err)
 					}
 				}
@@ -176,7 +210,36 @@ func TestVerifC04Verdicts(t *testing.T) {
 				}
 				desc = append(desc, fmt.Sprintf("v%d:%s/%s/to=%v", i, kind, mode, pl.to))
 			}
+			if uVal >= 0 {
+				if err := nd.ps.RegisterTopicValidator("u", c04Validator(uVal, rec, true, "u"), WithValidatorInline(uInline)); err != nil {
+					panic(err)
+				}
+				desc = append(desc, fmt.Sprintf("v%d:topic-u/inline=%v", uVal, uInline))
+			}
+			if nPad > 0 {
+				desc = append(desc, fmt.Sprintf("pads=%d first=%v", nPad, padFirst))
+			}
+			// the validators that apply to a message of the given topic
+			applies := func(topic string) map[int]bool {
+				out := map[int]bool{}
+				for i, pl := range places {
+					if !pl.topic || topic == "t" {
+						out[i] = true
+					}
+				}
+				if topic == "u" && uVal >= 0 {
+					out[uVal] = true
+				}
+				for j := 0; j < nPad; j++ {
+					out[100+j] = true
+				}
+				return out
+			}
 			sub, err := nd.ps.Subscribe("t")
+			if err != nil {
+				panic(err)
+			}
+			subU, err := nd.ps.Subscribe("u")
 			if err != nil {
 				panic(err)
 			}
@@ -185,6 +248,17 @@ func TestVerifC04Verdicts(t *testing.T) {
 			go func() {
 				for {
 					m, err := sub.Next(nd.ctx)
+					if err != nil {
+						return
+					}
+					mu.Lock()
+					delivered[c04IDOf(m.Data)]++
+					mu.Unlock()
+				}
+			}()
+			go func() {
+				for {
+					m, err := subU.Next(nd.ctx)
 					if err != nil {
 						return
 					}
@@ -204,7 +278,7 @@ func TestVerifC04Verdicts(t *testing.T) {
 					c.Inconclusive("attach")
 					return
 				}
-				p.Send(me, vSubRPC(true, "t"))
+				p.Send(me, vSubRPC(true, "t", "u"))
 			}
 			vSettle(50 * time.Millisecond)
 			author := r.n.genKey(false)
@@ -218,6 +292,8 @@ func TestVerifC04Verdicts(t *testing.T) {
 				verdicts  [4]byte
 				delays    [4]byte
 				local     bool
+				topic     string
+				pair      bool // sent together with a message of the other topic (penalties judged on the pair)
 				fwd       []int // forwarder indices that sent a copy
 				perr      error
 				invBefore map[peer.ID]float64
@@ -226,7 +302,12 @@ func TestVerifC04Verdicts(t *testing.T) {
 				calls := rec.of(s.id)
 				perVal := map[int]int{}
 				R := "accept"
+				app := applies(s.topic)
+				nVal := len(app) // shadows the case's count: what applies to this message
 				for _, cl := range calls {
+					if cl.wrong || !app[cl.val] {
+						fail(map[string]string{"kind": "foreign_validator_consulted"}, "message %s on topic %q was judged by validator %d, which does not apply to it", s.id, s.topic, cl.val)
+					}
 					perVal[cl.val]++
 					switch {
 					case cl.verdict == ValidationReject:
@@ -252,8 +333,8 @@ func TestVerifC04Verdicts(t *testing.T) {
 					}
 				}
 				snap := nd.Snap()
-				info := fmt.Sprintf("msg %s verdict bytes=%v delays(x10ms)=%v local=%v returned=%s -> class %s; delivered=%d forwarded=%d publishErr=%v",
-					s.id, s.verdicts[:nVal], s.delays[:nVal], s.local, c04Calls(calls), R, loc, fwd, s.perr)
+				info := fmt.Sprintf("msg %s on %q verdict bytes=%v delays(x10ms)=%v local=%v returned=%s -> class %s; delivered=%d forwarded=%d publishErr=%v",
+					s.id, s.topic, s.verdicts, s.delays, s.local, c04Calls(calls), R, loc, fwd, s.perr)
 				throttled := throttleKind != ""
 				switch R {
 				case "accept":
@@ -293,8 +374,8 @@ func TestVerifC04Verdicts(t *testing.T) {
 						}
 					}
 					switch {
-					case throttled:
-						// judged on the whole batch (upper bound only)
+					case throttled || s.pair:
+						// judged on the whole batch / pair
 					case R == "reject" && sentCopy && !s.local:
 						if d < 1 {
 							fail(map[string]string{"kind": "forwarder_not_penalised"}, "%s; forwarder %s invalid-delivery counter rose by %v", info, p.name, d)
@@ -315,7 +396,7 @@ func TestVerifC04Verdicts(t *testing.T) {
 			invNow := func() map[peer.ID]float64 { return nd.Snap().Invalid }
 			mk := func(local bool) *sent {
 				seq++
-				s := &sent{id: fmt.Sprintf("m%d", seq), local: local}
+				s := &sent{id: fmt.Sprintf("m%d", seq), local: local, topic: "t"}
 				for i := 0; i < 4; i++ {
 					// accept-heavy so that multi-validator accepts are common
 					s.verdicts[i] = byte([]int{0, 0, 0, 0, 1, 2, 3, 4}[c.Intn(8)])
@@ -332,6 +413,41 @@ func TestVerifC04Verdicts(t *testing.T) {
 					s := mk(local)
 					s.invBefore = invNow()
 					data := c04Payload(s.verdicts, s.delays, s.id)
+					if !local && c.Chance(0.35) {
+						// a message on each topic in one RPC: both are queued for validation before either is looked at
+						s2 := mk(false)
+						s2.topic = "u"
+						s2.invBefore = s.invBefore
+						fi := c.Intn(nF)
+						m1 := vSignedMsg(author, "t", vSeqno(seq-1), data)
+						m2 := vSignedMsg(author, "u", vSeqno(seq), c04Payload(s2.verdicts, s2.delays, s2.id))
+						if c.Chance(0.5) {
+							m1, m2 = m2, m1
+						}
+						F[fi].Send(me, vMsgRPC(m1, m2))
+						s.fwd, s2.fwd = []int{fi}, []int{fi}
+						vSettle(600 * time.Millisecond)
+						// the penalty counters of the pair are judged together
+						rej := 0
+						for _, x := range []*sent{s, s2} {
+							for _, cl := range rec.of(x.id) {
+								if cl.verdict == ValidationReject {
+									rej++
+									break
+								}
+							}
+						}
+						if d := nd.Snap().Invalid[F[fi].ID()] - s.invBefore[F[fi].ID()]; d != float64(rej) {
+							fail(map[string]string{"kind": "pair_penalty_mismatch"}, "pair %s/%s from %s: invalid-delivery counter rose by %v, %d of the two were rejected", s.id, s2.id, F[fi].name, d, rej)
+						}
+						after := invNow()
+						s.invBefore, s2.invBefore = after, after
+						s.pair, s2.pair = true, true
+						judge(s)
+						judge(s2)
+						classes["pair"]++
+						continue
+					}
 					if local {
 						s.perr = nd.ps.Publish("t", data)
 					} else {
